@@ -720,6 +720,13 @@ impl HttpContext {
                             .data_opt(buf)
                             .and_then(|data| from_utf8(data).ok())
                             .map(ToOwned::to_owned);
+                    } else if compare_no_case(key, self.sozu_id_header.as_bytes()) {
+                        // The correlation header is Sōzu's own and is appended
+                        // below on every request. A client-supplied header of
+                        // the same name would reach the backend next to (and
+                        // ahead of) the real one, letting the client pick the
+                        // id its request is correlated under.
+                        header.elide();
                     } else if compare_no_case(key, b"X-Request-Id") {
                         // RFC: not standardized, but the de-facto correlation
                         // header used by Envoy/HAProxy/most LBs. Preserve the
